@@ -118,16 +118,19 @@ func renderStage(prev string, st Stage, s int, p *Pipe) (string, bool) {
 	case "compact":
 		return prev + ".compact((p,q)->" + w("p") + "%3=q%3)", true
 	case "cross":
-		other := "[0,1]"
-		if st.Fn%2 == 1 {
-			other = "numbers(" + p.arg("b") + ")"
+		if st.Ident {
+			return prev + ".cross(numbers(" + p.arg("b") + ").map(y->probe(15,y)), (p,q)->q)", true
 		}
+		other := []string{"[0,1]", "numbers(" + p.arg("b") + ")", "numbers(" + p.arg("b") + ").combine((u,v)->u+v)", "[0,1].number((n,y)->y+n)"}[st.Fn%4]
 		return prev + ".cross(" + other + ", (p,q)->" + w("p") + "*2+q)", true
 	case "merge":
-		other := "numbers(" + p.arg("b") + ").map(y->y*2+1)"
-		if st.Fn%2 == 1 {
-			other = "numbers(" + p.arg("b") + ")"
+		if st.Ident {
+			// C08: the second operand is lazy too and carries its own probe (stage id 15)
+			return prev + ".merge(numbers(" + p.arg("b") + ").map(y->probe(15,y)), (p,q)->p<q)", true
 		}
+		other := []string{"numbers(" + p.arg("b") + ").map(y->y*2+1)", "numbers(" + p.arg("b") + ")",
+			"numbers(" + p.arg("b") + ").combine((u,v)->u+v)", "numbers(" + p.arg("b") + ").number((n,y)->y*2+n)",
+			"numbers(" + p.arg("b") + ").iir(y->y, (y,l)->y+l%5)", "numbers(" + p.arg("b") + ").map(y->y+1).compact((u,v)->u%4=v%4)"}[st.Fn%6]
 		return prev + ".merge(" + other + ", (p,q)->" + w("p") + "<q)", true
 	case "top":
 		return prev + ".top(" + strconv.Itoa(n) + ")", true
@@ -136,6 +139,9 @@ func renderStage(prev string, st Stage, s int, p *Pipe) (string, bool) {
 	case "fsm":
 		return prev + ".fsm((s,x)->goto((s.state+" + w("x") + ")%3)).map(s->s.state)", true
 	case "plus":
+		if st.Ident {
+			return "(" + prev + "+numbers(" + p.arg("b") + ").map(y->probe(15,y)))", true
+		}
 		return "(" + prev + "+numbers(" + strconv.Itoa(n%50) + "))", true
 	}
 	return prev, false
@@ -327,7 +333,7 @@ func usesCallerStack(op string) bool {
 }
 
 func genStage(r *rng, ops []string) Stage {
-	st := Stage{Op: pick(r, ops...), Fn: r.intn(4)}
+	st := Stage{Op: pick(r, ops...), Fn: r.intn(12)}
 	switch st.Op {
 	case "top":
 		st.N = pick(r, 0, 1, 5, 13, 30, 100, 500)
